@@ -48,6 +48,18 @@ class Process(type):
     _atexitq = tsq.TaskQueue()
     '''Functions registered in atexit with order by priority numbers.'''
 
+    # The current time thread is per os thread: a routine being awakened by a
+    # clock thread is not the current time thread of code running elsewhere.
+    _tt_local = threading.local()
+
+    @property
+    def current_tt(cls):
+        return getattr(cls._tt_local, 'tt', None) or cls.main_tt
+
+    @current_tt.setter
+    def current_tt(cls, value):
+        cls._tt_local.tt = value
+
     def __init__(cls, *_):
         # Main library lock (guards clock's threads).
         cls._main_lock = threading.RLock()
